@@ -78,3 +78,22 @@ S(id="VLO.grow", props=["C19", "C12"], spec="native/vlo_grow.c", mode="N", link=
 S(id="HT.hpn.native", props=["C19"], spec="native/ht_prime.c", mode="N", link=["hashtab.c", "allocate.c"], harness="main",
   params={"quick": {"K": 20000}, "thorough": {"K": 2000000}}, bound="all requested sizes 0..K",
   functions=["higher_prime_number"], what="assumed clause of hpn_assumed_c: result is a prime in (n, 2n+3]")
+
+# ---------------- C15 / C14 / C17: yaep_parse ----------------
+PARSE_REPL = ["verif_error_exit/err_c", "tok_init/tok_init_c", "read_toks/read_toks_c", "yaep_parse_init/parse_init_c", "build_pl/build_pl_c",
+              "make_parse/make_parse_c", "yaep_parse_fin/parse_fin_c", "tok_fin/tok_fin_c"]
+S(id="API.parse", props=["C15", "C14", "C17", "C05"], spec="parse.spec.c", harness="h_parse", mode="L", canaries=2, object_bits=10,
+  enforce=["yaep_parse/parse_c"], replace=PARSE_REPL, functions=["yaep_parse", "pl_init", "pl_create", "pl_fin"],
+  what="phase A: NULL allocator with non-NULL free returns YAEP_NO_MEMORY with an empty frame; otherwise returns 0, the object is current, callbacks installed, "
+       "no parser list survives, per-parse storage finalised once; exit assertions at every error exit: error recorded in this object, *root/*ambiguous_p reset, "
+       "undefined grammar refused before anything is initialised",
+  assumes=["A7: contracts of tok_init, read_toks, yaep_parse_init, build_pl, make_parse, yaep_parse_fin, tok_fin are assumed here (parser internals)",
+           "A-TOKS: fewer than INT_MAX/32 tokens", "A-STAT: statistics counters non-negative"])
+S(id="API.parse.unwind", props=["C15", "C14", "C17"], spec="parse.spec.c", harness="h_unwind_parse", mode="L", canaries=2,
+  enforce=["verif_unwind_parse/unwind_parse_c"], replace=["yaep_parse_fin/parse_fin_c", "tok_fin/tok_fin_c"], functions=["yaep_parse (error branch, rule R3)", "pl_fin"],
+  what="phase B: the error branch returns the recorded code, releases the parser list once and resets the pointer, finalises exactly the storage that was initialised",
+  assumes=["A3: after longjmp the two flag locals of yaep_parse hold their last written values (equal to the ghost counters; static fact S.flags)"])
+S(id="G.pl.create", props=["C14", "C12"], spec="parse.spec.c", harness="h_pl_create", mode="L", defines=["VERIF_TRACK_ALLOC_SIZE"], enforce=["pl_create/pl_create_c"], functions=["pl_create"],
+  what="UB.pl: size computation does not overflow for toks_len < INT_MAX/32; fresh list of 2*(toks_len+1) slots")
+S(id="G.pl.fin", props=["C14"], spec="parse.spec.c", harness="h_pl_fin", mode="L", canaries=2, enforce=["pl_fin/pl_fin_c"], functions=["pl_fin"],
+  what="list released once and pointer reset (PLINV)")
